@@ -113,10 +113,8 @@ func (s *Solver) send(str string) {
 		return
 	}
 	if _, err := io.WriteString(s.in, str); err != nil {
-		if s.dead {
-			return
-		}
-		panic(engineError{"solver pipe write: " + err.Error()})
+		s.dead = true // see readLine
+		return
 	}
 }
 
@@ -218,10 +216,11 @@ func (s *Solver) Assert(t *Term) {
 func (s *Solver) readLine() string {
 	line, err := s.out.ReadString('\n')
 	if err != nil {
-		if s.dead {
-			return "unknown"
-		}
-		panic(engineError{"solver pipe read: " + err.Error()})
+		// the solver process is gone (killed by the watchdog, or died on its
+		// own): the answer is unknown, the one-shot fallback decides the
+		// query and the worker restarts the solver after the path
+		s.dead = true
+		return "unknown"
 	}
 	return strings.TrimSpace(line)
 }
@@ -327,7 +326,10 @@ func (s *Solver) Check(m *Model) SatResult {
 		return r2
 	}
 	if res == Sat && m != nil {
-		s.readModel(m)
+		if !s.readModel(m) {
+			// the solver died between the answer and the model
+			return s.oneShot(m)
+		}
 	}
 	return res
 }
@@ -412,11 +414,11 @@ func (s *Solver) oneShot(m *Model) SatResult {
 	return Unknown
 }
 
-func (s *Solver) readModel(m *Model) {
+func (s *Solver) readModel(m *Model) bool {
 	m.vals = make(map[int32]uint64, len(s.declVars))
 	m.cache = make(map[int32]uint64)
 	if len(s.declVars) == 0 {
-		return
+		return true
 	}
 	var sb strings.Builder
 	sb.WriteString("(get-value (")
@@ -436,7 +438,8 @@ func (s *Solver) readModel(m *Model) {
 	for !started || depth > 0 {
 		line, err := s.out.ReadString('\n')
 		if err != nil {
-			panic(engineError{"solver pipe read: " + err.Error()})
+			s.dead = true
+			return false
 		}
 		if strings.HasPrefix(strings.TrimSpace(line), "(error") {
 			panic(engineError{"get-value: " + line})
@@ -472,6 +475,7 @@ func (s *Solver) readModel(m *Model) {
 	for _, v := range s.declVars {
 		m.vals[v.id] = byName[v.name]
 	}
+	return true
 }
 
 func parseLit(s string) uint64 {
